@@ -12,7 +12,7 @@ normalisation.  Not decided: which broker *is* the leader (run-time metadata).
 import ast
 
 from ..model import self_attr, unparse, walk_body_shallow
-from .util import list_adds, call_name, call_recv, calls_in, kwarg, need, norm, where
+from .util import at, deferred_origins, value_origins, list_adds, call_name, call_recv, calls_in, kwarg, need, norm, where
 
 TECHNIQUE = "def-use of the grouping key and payload, lock-step append pairing, loop/except fall-through order, who-may-construct"
 EXPLANATION = (
@@ -168,7 +168,7 @@ def run(ctx):
     if ok:
         cv = unparse(look[0].stmt.targets[0])
         ok = norm([c for c in look[0].calls() if call_name(c) == "_get_coordinator_for_group"][0].args[0]) == src.params[1] and \
-            ("%s is None" % cv, False) in fs[gb[0].id] and norm([c for c in gb[0].calls() if call_name(c) == "_get_brokerclient"][0].args[0]) == "%s.node_id" % cv
+            ("%s is None" % cv, False) in fs[gb[0].id] and norm(at(ctx, src, gb[0].id, [c for c in gb[0].calls() if call_name(c) == "_get_brokerclient"][0].args[0])) == "%s.node_id" % cv
         snd = [n for n in cs.nodes if any(call_name(c) == "_make_request_to_broker" for c in n.calls())]
         ok = ok and len(snd) == 1 and norm([c for c in snd[0].calls() if call_name(c) == "_make_request_to_broker"][0].args[0]) == unparse(gb[0].stmt.targets[0])
     r.check(ok, "%s#coordinator-route" % src.qname, "group request is not routed to the group's coordinator (or a missing coordinator does not raise)",
@@ -219,10 +219,23 @@ def run(ctx):
     r = ctx.rule("R8", "_KafkaBrokerClient is constructed only in _get_brokerclient, keyed by the node id it was looked up with", 1, "A")
     sites = sorted({f.qname for f in prog.funcs.values() if f.module.name != "brokerclient" for c in calls_in(f, "_KafkaBrokerClient")})
     gbc = ctx.func(KC + "._get_brokerclient")
-    st = [x for x in walk_body_shallow(gbc.body) if isinstance(x, ast.Assign) and isinstance(x.value, ast.Call) and call_name(x.value) == "_KafkaBrokerClient"]
-    ok = sites == [gbc.qname] and len(st) == 1 and norm(st[0].targets[0]) == "self.clients[%s]" % gbc.params[1]
-    bm = [x for x in walk_body_shallow(gbc.body) if isinstance(x, ast.Assign) and norm(x.value) == "self._brokers[%s]" % gbc.params[1]]
-    ok = ok and bool(bm) and any(norm(a) == unparse(bm[0].targets[0]) for a in st[0].value.args)
+    cgb = ctx.cfg(gbc)
+    ctor = [c for c in calls_in(gbc, "_KafkaBrokerClient")]
+    ok = sites == [gbc.qname] and len(ctor) == 1
+    if ok:
+        # the constructed client is stored under the looked-up node id in the client map (possibly through a local / an alias of the map)
+        stores = []
+        for n in cgb.nodes:
+            if n.kind == "stmt" and isinstance(n.stmt, ast.Assign) and len(n.stmt.targets) == 1 and isinstance(n.stmt.targets[0], ast.Subscript):
+                tgt = n.stmt.targets[0]
+                if norm(at(ctx, gbc, n.id, tgt.value)) == "self.clients" and norm(tgt.slice) == gbc.params[1]:
+                    og = deferred_origins(cgb, n.id, n.stmt.value) or []
+                    if len(og) == 1 and og[0] is ctor[0]:
+                        stores.append(n)
+        ok = len(stores) == 1
+        bmo = [a for a in ctor[0].args if (value_origins(cgb, cgb.containing(ctor[0])[0].id, a, params=gbc.params) or [(None, a)]) and any(
+            norm(e) == "self._brokers[%s]" % gbc.params[1] for n_, e in (value_origins(cgb, cgb.containing(ctor[0])[0].id, a, params=gbc.params) or []))]
+        ok = ok and bool(bmo)
     r.check(ok, "%s#construction" % gbc.qname, "broker clients are constructed elsewhere or with another broker's address", where(gbc, gbc.node), facts=sites)
 
     # ---- R9 host normalisation
